@@ -3,7 +3,7 @@
    program the harness derived and ran on a real plain Dfg, and the observation of that run. *)
 From Coq Require Import ZArith NArith List Bool Arith.
 Import ListNotations.
-From HV Require Export lib.Harness model.Tracked spec.TrackedS.
+From HV Require Export lib.Harness model.Tracked spec.TrackedS model.TrackedRet spec.TrackedRetS.
 
 Inductive ores := ROk | RErr (e : err) | ROther.
 
@@ -13,7 +13,9 @@ Record obs := mkObs {
   o_links : list link;
   o_tracked : list (option wire);
   o_res : ores;
-  o_extra : N }.                        (* links the model has no name for (order edges, root) + layout surprises *)
+  o_extra : N;                          (* links the model has no name for (order edges, root) + layout surprises *)
+  o_rets : list (option retv) }.        (* tracked run: what every call handed back, in program order (None: a value
+                                           of another shape than index / index list / wire / node(s) / None) *)
 
 (* Case2: the tracked program was run on two TrackedDfg builders, the second one receiving the very same
    Python objects (commands, metadata) as the first; the property is about commands as values, so both
@@ -46,11 +48,22 @@ Definition graph_corr (h : hugr) (o : obs) : bool :=
            (map (fun b : N * N * meta => (fst (fst b), snd b)) (o_nodes o)) &&
   perm_eqb link_eqb (h_links h) (o_links o) && N.eqb (o_extra o) 0.
 
+Definition rets_eqb : list (option retv) -> list (option retv) -> bool := list_eqb (option_eqb retv_eqb).
+(* a is the beginning of b *)
+Fixpoint rets_prefixb (a b : list (option retv)) : bool :=
+  match a, b with
+  | [], _ => true
+  | x :: a', y :: b' => option_eqb retv_eqb x y && rets_prefixb a' b'
+  | _ :: _, [] => false
+  end.
+
 Definition corr1 (nin : N) (track : bool) (p : list cmd) (ot : obs) (q : list pcmd) (op : obs) : bool :=
       let '(h, tr, r) := run_tracked nin track p in
       let '(h2, r2) := run_plain nin q in
       graph_corr h ot && list_eqb (option_eqb wire_eqb) tr (o_tracked ot) && ores_eqb (of_model r) (o_res ot) &&
-      graph_corr h2 op && ores_eqb (of_model r2) (o_res op).
+      graph_corr h2 op && ores_eqb (of_model r2) (o_res op) &&
+      (* the values handed back by the calls, up to the call that raised *)
+      rets_eqb (map Some (run_tracked_rets nin track p)) (o_rets ot).
 
 Definition corr (c : case) : bool :=
   match c with
@@ -76,6 +89,16 @@ Definition mon1 (nin : N) (track : bool) (p : list cmd) (ot : obs) (q : list pcm
       | ROk => if ok then ores_eqb (o_res ot) ROk && list_eqb (option_eqb wire_eqb) (o_tracked ot) (table fin)
                else ores_eqb (o_res ot) (RErr EIndex) && list_eqb (option_eqb wire_eqb) (o_tracked ot) (table fin)
       | r => ores_eqb (o_res ot) r
+      end &&
+      (* returned values: the indices handed back by track_wire(s) / track_inputs are the fresh indices of the
+         history in the order the wires were given, untrack_wire hands back the wire the index denoted, add /
+         extend the new nodes - every value of a run that ended without an exception (or with the IndexError of
+         an integer that denotes nothing: the history stops there too), a prefix of them when a call raised
+         inside the plain builder *)
+      let want := map Some (expected nin track p) in
+      match o_res op, o_res ot with
+      | ROk, _ => rets_eqb (o_rets ot) want
+      | _, _ => rets_prefixb (o_rets ot) want
       end.
 
 Definition mon (c : case) : bool :=
